@@ -53,6 +53,16 @@ Theorem C15_objective_values_agree : forall c1 c2 st o v,
 Proof. exact achievable_objective_values_agree. Qed.
 Print Assumptions C15_objective_values_agree.
 
+(* the SMT logic only selects the solver class, and a solver built for a logic is used only when the logic covers the
+   encoding: when the problem has a non-concurrent buffer (its level is an array) the logic has arrays *)
+Theorem C15_logic_covers_encoding : forall c st n,
+  su_kind (solver_setup c st) = SkSolverFor n ->
+  exists l, cf_logic c = Some l /\ lg_id l = n /\
+            ((exists b, In b (x_bufs (ps_ext st)) /\ b_conc b = false) -> lg_arrays l = true).
+Proof. intros c st n H. destruct (logic_covers_encoding c st n H) as (l & H1 & H2 & H3). exists l. repeat split; auto.
+  intros Hb. apply H3. now apply needs_arrays_iff. Qed.
+Print Assumptions C15_logic_covers_encoding.
+
 (* the freshness side condition (no user expression mentions the two reserved variables) is decidable and holds
    in the example state *)
 Theorem C15_hypotheses_satisfiable : exists st, reaches ex3_prog st /\ equiv_fresh st
